@@ -66,6 +66,65 @@ CHECKS = {
         "float32-division allowance.",
         "DESIGN.md#c14",
     ),
+    "C01": (
+        "deviation-bounded exhaustive walk of each function's configuration lattice, plus "
+        "exhaustive value assignments on tiny shapes, against the PyTorch reference op",
+        "For the 16 public functions every configuration with <=2 (quick) / <=3 (thorough) coordinates "
+        "deviating from the default (batch rank 0-3, sizes, dtype, mult, p, training, dim, eps, "
+        "stride/padding/dilation/groups, is_causal, attn_mask, reduction, ignore_index, padding_idx, "
+        "max_norm, approximate, every constraint name) is executed with two value draws against the "
+        "torch reference; a least-squares scalar is fitted in float64 and must be positive, "
+        "residual-free, equal across draws and dtypes, exactly 1 for losses/norms/embedding; shape, "
+        "dtype, input immutability and rejection of unsupported arguments are checked; on tiny shapes "
+        "ALL assignments over a 5-value alphabet are run.",
+        "tensor values are two seeded draws except on the tiny shapes; low-precision dtypes use "
+        "dtype-sized tolerances.",
+        "DESIGN.md#c01",
+    ),
+    "C02": (
+        "same lattice walk as C01 with autograd of the PyTorch reference as oracle; exhaustive "
+        "(factor x shape x dtype) product for the two scaling primitives",
+        "Same configuration lattices as C01; for every differentiable input and 2 value draws x 2 "
+        "upstream-gradient draws the gradient must equal the reference gradient (sum-reduced for "
+        "mean losses) times one positive scalar, equal across all four draws; scale_fwd/scale_bwd "
+        "are run over 10 factors (negative and zero included) x 6 shapes x 4 dtypes with the "
+        "untouched pass compared bit-for-bit.",
+        "two seeded draws per configuration for values and upstream gradients.",
+        "DESIGN.md#c02",
+    ),
+    "C03": (
+        "full-product walk of each op's shape lattice; oracle scalar^2 x measured term count = 1 "
+        "with term counts measured on the PyTorch reference with all-ones operands",
+        "Full product of shape coordinates (sizes {1,2,3,5,8}, 6 batch shapes, conv kernel/stride/"
+        "dilation/groups, 4 broadcast patterns, vocab/batch, p, tau) for linear, readout, matmul, "
+        "conv1d, add, residual, embedding, dropout, mse, norm gains/biases: 6.3k configurations quick; "
+        "the fitted forward/backward scalars squared times the measured number of summed terms must "
+        "be 1 to 1e-11.",
+        "fitted scalars taken from one value draw (data independence is C01/C02).",
+        "DESIGN.md#c03",
+    ),
+    "C05": (
+        "lattice walk over (op, constraint name, shape) comparing fitted scales with an independent "
+        "implementation of the rule applied to the unconstrained scales; exhaustive tuples for the rule functions",
+        "Every op taking a constraint x every valid name x configurations with <=2/3 deviations: the "
+        "forward scalar and every constrained gradient scalar must equal my own rule(s0, c0...) to "
+        "1e-10, weight/bias scalars unchanged, gradcheck passes on constrained inputs; fixed-constraint "
+        "ops have equal forward/backward scalars; 8 unknown names x 8 ops must raise ValueError; the rule "
+        "functions are run on all 7^1..7^4 and 3^5, 3^6 tuples (value, symmetry, range, h<=g<=a).",
+        "one value draw per probe; scales alphabet spans [1e-6,1e6] on 7 points.",
+        "DESIGN.md#c05",
+    ),
+    "C06": (
+        "exhaustive enumeration of residual structures (ordered forests, sequential and nested) "
+        "with all (tau, branch) labellings, against the closed form in plain float64 torch",
+        "All forests with <=3 (quick) / <=4 (thorough) residual layers over a 3x3 (tau, branch) "
+        "sub-alphabet, every single layer over 7 taus x 8 branch functions x 4 shapes, uniform stacks "
+        "and nested chains of depth 4-8, each in split/add and residual_apply form: output and x.grad "
+        "vs the recursive closed form (1e-11) and the gradient observed at every branch output "
+        "bit-identical to that of the enclosing residual_add output.",
+        "two seeded value draws per program; tau grid of 6 points in [1e-3,1e3].",
+        "DESIGN.md#c06",
+    ),
 }
 
 NOT_YET = {}
